@@ -75,7 +75,11 @@ func (p *Parser) SetPlaceholder(placeholder Atom, args ...interface{}) error {
 func (p *Parser) termOf(o reflect.Value) (Term, error) {
 	switch o.Kind() {
 	case reflect.Float32, reflect.Float64:
-		return Float(o.Float()), nil
+		f := o.Float()
+		if math.IsInf(f, 0) || math.IsNaN(f) {
+			return nil, fmt.Errorf("can't convert to term: %v", o) // Neither is a Prolog number; no literal denotes them.
+		}
+		return Float(f), nil
 	case reflect.Int, reflect.Int8, reflect.Int16, reflect.Int32, reflect.Int64:
 		return Integer(o.Int()), nil
 	case reflect.String:
